@@ -1,13 +1,17 @@
-"""Per-property build and campaign configuration (see DESIGN.md §5)."""
+"""Per-property build and campaign configuration: one module per property in
+driver/propdefs/<ID>.py defining PROP (build + campaign) and TEXT (MANIFEST wording)."""
+import glob
+import importlib.util
+import os
 
 PROPS = {}
-
-PROPS["C17"] = {
-    "harness": ["harness/C17.cpp"],
-    "units": [{"src": "R:igris/util/crc.c"}],
-    "targets": [
-        {"name": "crc_enum", "mode": "enum"},
-        {"name": "crc", "quick": 4000000, "thorough": 60000000, "maxlen": 300},
-    ],
-    "fuzz": [{"name": "crc", "secs": 60, "maxlen": 300}],
-}
+TEXT = {}
+_here = os.path.dirname(os.path.abspath(__file__))
+for _p in sorted(glob.glob(os.path.join(_here, "propdefs", "C*.py"))):
+    _id = os.path.basename(_p)[:-3]
+    _spec = importlib.util.spec_from_file_location("propdef_" + _id, _p)
+    _m = importlib.util.module_from_spec(_spec)
+    _spec.loader.exec_module(_m)
+    PROPS[_id] = _m.PROP
+    if hasattr(_m, "TEXT"):
+        TEXT[_id] = _m.TEXT
